@@ -120,3 +120,91 @@ func runC02Faults(r *rep.Reporter) {
 	r.Require("buckets_emptied_after_a_fault", 300)
 	r.Require("buckets_deleted_and_recreated_after_a_fault", 100)
 }
+
+// runC02Wide: DeleteObjects requests at the documented limit. A request may name up to 1000 keys:
+// with 998, 999 and 1000 entries (three of them live, the rest never written, some named twice)
+// every backend must answer 200, report every entry and remove the live keys; with 1001 and 1500
+// entries a server may refuse the whole request or work through it, but all backends alike, and a
+// refusal removes nothing.
+func runC02Wide(r *rep.Reporter) {
+	type outcome struct {
+		status  int
+		deleted int
+		errors  int
+		gone    int
+	}
+	for _, n := range []int{1, 998, 999, 1000, 1001, 1500} {
+		for _, quiet := range []bool{false, true} {
+			var first *outcome
+			var firstKind string
+			for _, kind := range drv.AllKinds {
+				s, err := drv.NewServer(drv.Opts{Kind: kind})
+				if err != nil {
+					r.Inconclusive("cannot start " + kind + ": " + err.Error())
+					return
+				}
+				b := "wide-bucket"
+				if drv.IsSingle(kind) {
+					b = drv.SingleName
+				} else {
+					s.CreateBucket(b)
+				}
+				live := []string{"live-0", "dir/live-1", "live-2"}
+				for _, k := range live {
+					s.Put(b, k, []byte("wide:"+k), nil)
+				}
+				keys := append([]string{}, live...)
+				for i := len(keys); i < n; i++ {
+					keys = append(keys, fmt.Sprintf("never/%04d", i))
+				}
+				keys = keys[len(keys)-n:] // n == 1: only the last live key
+				resp := s.Do(&drv.Req{Method: "POST", Path: "/" + b, Query: "delete", Body: deleteXML(keys, quiet)})
+				r.Eval(1)
+				r.Count("wide_multi_deletes", 1)
+				var dr drv.DeleteResult
+				o := &outcome{status: resp.Status}
+				if resp.Status == 200 && drv.ParseXML(resp.Body, &dr) == nil {
+					o.deleted, o.errors = len(dr.Deleted), len(dr.Errors)
+				}
+				named := map[string]bool{}
+				for _, k := range keys {
+					named[k] = true
+				}
+				stillNamed := 0
+				for _, k := range live {
+					g := s.Get(b, k)
+					if g.Status == 404 {
+						o.gone++
+					} else if named[k] {
+						stillNamed++
+					}
+					if g.Status == 404 && !named[k] {
+						r.Violation(sig("C02", backendClass(kind), "multi-delete-removed-unnamed-key", fmt.Sprint(n)), fmt.Sprintf("%s: DeleteObjects with %d entries removed %q, which it does not name", kind, n, k), respDesc(resp))
+					}
+				}
+				wit := map[string]interface{}{"backend": kind, "entries": n, "quiet": quiet, "response": respDesc(resp)}
+				switch {
+				case resp.Panic != nil:
+					r.Violation(sig("C02", backendClass(kind), "panic", "wide-multi-delete"), fmt.Sprintf("%s: DeleteObjects with %d entries panicked: %v", kind, n, resp.Panic), wit)
+				case n <= 1000 && resp.Status != 200:
+					r.Violation(sig("C02", backendClass(kind), "multi-delete-within-limit-refused", fmt.Sprint(n)), fmt.Sprintf("%s: DeleteObjects with %d entries (the limit is 1000) answers %s", kind, n, resp), wit)
+				case resp.Status == 200 && stillNamed > 0:
+					r.Violation(sig("C02", backendClass(kind), "multi-delete-left-named-key", fmt.Sprint(n)), fmt.Sprintf("%s: DeleteObjects with %d entries answered 200 but %d named live keys can still be read", kind, n, stillNamed), wit)
+				case resp.Status == 200 && !quiet && o.deleted+o.errors != n:
+					r.Violation(sig("C02", backendClass(kind), "multi-delete-result-incomplete", fmt.Sprint(n)), fmt.Sprintf("%s: DeleteObjects with %d entries reports %d Deleted and %d Error elements", kind, n, o.deleted, o.errors), wit)
+				case resp.Status == 200 && quiet && o.deleted != 0:
+					r.Violation(sig("C02", backendClass(kind), "quiet-multi-delete-reports-deleted", fmt.Sprint(n)), fmt.Sprintf("%s: quiet DeleteObjects with %d entries reports %d Deleted elements", kind, n, o.deleted), wit)
+				case resp.Status != 200 && o.gone > 0:
+					r.Violation(sig("C02", backendClass(kind), "refused-multi-delete-removed-keys", fmt.Sprint(n)), fmt.Sprintf("%s: DeleteObjects with %d entries answered %s and yet %d keys are gone", kind, n, resp, o.gone), wit)
+				}
+				if first == nil {
+					first, firstKind = o, kind
+				} else if *first != *o {
+					r.Violation(sig("C02", backendClass(kind), "backends-differ", "wide-multi-delete,"+fmt.Sprint(n)), fmt.Sprintf("DeleteObjects with %d entries: %s answers %+v, %s answers %+v", n, firstKind, *first, kind, *o), wit)
+				}
+				s.Close()
+			}
+		}
+	}
+	r.Require("wide_multi_deletes", 50)
+}
